@@ -55,6 +55,8 @@ type c01List struct {
 }
 
 type c01Case struct {
+	extraProbes [][2]string
+
 	mode       string
 	bip4, bip6 netip.Addr
 	ttl        int
@@ -429,6 +431,10 @@ func (c *c01Case) probes() (ps [][2]string) {
 		}
 	}
 
+	for _, p := range c.extraProbes {
+		add(p[0], uint16(vutil.Atoi(p[1])))
+	}
+
 	return ps
 }
 
@@ -787,11 +793,12 @@ func c01GenRule(r *rand.Rand, d string, c *c01Case) string {
 		d = c01MixCase(r, d)
 	}
 	dnstypes := []string{"A", "AAAA", "~A", "~AAAA", "A|AAAA", "HTTPS", "~HTTPS", "MX|TXT", "CNAME", "~CNAME", "a", "PTR"}
-	clientsV := []string{c.cname, "~" + c.cname, "other", "~other", "'" + c.cname + "'", c.cip.String(), "~" + c.cip.String(),
-		"10.0.0.0/8", "~10.0.0.0/8", "192.168.0.0/16", "fe80::/10", "2001:db8::/32", "other|" + c.cname, "~other|~" + c.cip.String(),
-		"10.0.0.1", "\"" + c.cname + "\""}
-	if c.cname == "" {
-		clientsV = clientsV[2:4]
+	clientsV := []string{"other", "~other", c.cip.String(), "~" + c.cip.String(),
+		"10.0.0.0/8", "~10.0.0.0/8", "192.168.0.0/16", "fe80::/10", "2001:db8::/32", "~other|~" + c.cip.String(),
+		"10.0.0.1", "2001:DB8::99", "2001:db8:0:0:0:0:0:99", "::ffff:10.0.0.1", "10.0.0.1/32", "127.0.0.0/8|10.0.0.0/24",
+		"2001:db8::/129", "10.0.0.0/08", "1.2.3", "0.0.0.0/0", "::/0", "010.0.0.1"}
+	if c.cname != "" {
+		clientsV = append(clientsV, c.cname, "~"+c.cname, "'"+c.cname+"'", "other|"+c.cname, "\""+c.cname+"\"", "~'"+c.cname+"'")
 	}
 	pat := func() string {
 		switch r.IntN(14) {
@@ -816,7 +823,7 @@ func c01GenRule(r *rand.Rand, d string, c *c01Case) string {
 
 			return "||" + d + "^"
 		case 12:
-			return "://" + d
+			return vutil.Pick(r, []string{"://" + d, "http://" + d, "|http://" + d + "^", d + "/*", "||" + d + "/*", "|" + d})
 		default:
 			return "||" + d + "^|"
 		}
@@ -931,9 +938,9 @@ func c01GenConf(r *rand.Rand, c *c01Case) {
 		c.bip6 = netip.Addr{}
 	}
 	c.ttl = vutil.Pick(r, []int{0, 10, 3600})
-	c.prot = r.IntN(6) > 0
-	c.pause = vutil.Pick(r, []string{"none", "none", "none", "none", "none", "none", "past", "future"})
-	c.gfilt = r.IntN(7) > 0
+	c.prot = r.IntN(8) > 0
+	c.pause = vutil.Pick(r, []string{"none", "none", "none", "none", "none", "none", "none", "none", "past", "future"})
+	c.gfilt = r.IntN(9) > 0
 	c.gSched = r.IntN(4) == 0
 	c.gSvc = c01PickSvcs(r)
 	c.cip = netip.MustParseAddr(vutil.Pick(r, []string{"10.0.0.1", "192.168.1.2", "2001:db8::99", "127.0.0.1"}))
@@ -989,6 +996,13 @@ func c01GenCase(r *rand.Rand) (c *c01Case) {
 	c = &c01Case{}
 	c01GenConf(r, c)
 	target := vutil.Pick(r, c01Domains)
+	if svcs := append(append([]c01Service{}, c.gSvc...), c.cSvc...); len(svcs) > 0 && r.IntN(3) == 0 {
+		// aim at a domain of a configured blocked service
+		rule := vutil.Pick(r, vutil.Pick(r, svcs).rules)
+		if d := strings.Trim(rule, "|^"); !strings.ContainsAny(d, "*/$") {
+			target = d
+		}
+	}
 	c.qtype = vutil.Pick(r, c01Qtypes)
 	name := c01Related(r, target)
 	switch r.IntN(40) {
@@ -1004,9 +1018,90 @@ func c01GenCase(r *rand.Rand) (c *c01Case) {
 	}
 	c.qname = name + "."
 	c01GenLists(r, c, target)
+	host := strings.ToLower(name)
+	if host != "" {
+		parent := host
+		if i := strings.IndexByte(host, '.'); i > 0 && r.IntN(3) == 0 {
+			parent = host[i+1:]
+		}
+		if r.IntN(10) < 7 {
+			direct := vutil.Pick(r, []string{"||" + parent + "^", "||" + parent + "^", "||" + parent + "^$important", vutil.Pick(r, c01RuleIPs) + " " + host,
+				host, "|" + host + "^", "||" + parent + "^$dnstype=" + dns.TypeToString[c.qtype]})
+			if len(c.block) > 0 && r.IntN(2) == 0 {
+				c.block[0].lines = append(c.block[0].lines, direct)
+			} else {
+				c.custom = append(c.custom, direct)
+			}
+		}
+		if r.IntN(6) == 0 {
+			ex := vutil.Pick(r, []string{"@@||" + parent + "^", "@@||" + host + "^$important", "@@|" + host + "^"})
+			if r.IntN(2) == 0 {
+				c.custom = append(c.custom, ex)
+			} else {
+				c.allow = append(c.allow, c01List{enabled: r.IntN(8) > 0, lines: []string{vutil.Pick(r, []string{"||" + parent + "^", ex, host})}})
+			}
+		}
+	}
 	c01CleanAnswer(r, c)
+	c01ExtraProbes(r, c, target)
 
 	return c
+}
+
+// c01ExtraProbes adds host names the pipeline does not look at in this case;
+// they only widen the comparison of the rule-semantics model with urlfilter.
+func c01ExtraProbes(r *rand.Rand, c *c01Case, target string) {
+	for i := 0; i < 3; i++ {
+		h := strings.ToLower(c01Related(r, target))
+		if r.IntN(5) == 0 {
+			h = vutil.Pick(r, []string{"1.2.3.4", "2001:db8::1", "example.organic", "xn--e1afmkfd.xn--p1ai", "a_b.example.org", "localhost"})
+		}
+		c.extraProbes = append(c.extraProbes, [2]string{h, strconv.Itoa(int(vutil.Pick(r, c01Qtypes)))})
+	}
+}
+
+// c01Exhaustive enumerates every pair of rule kinds x placement x blocking mode
+// x protection state x query type around one domain (thorough tier).
+func c01Exhaustive(emit vutil.Emit) {
+	const d = "ads.example.org"
+	kinds := []string{"", "||" + d + "^", "||" + d + "^$important", "@@||" + d + "^", "@@||" + d + "^$important",
+		"127.0.0.1 " + d, "::1 " + d, d, "||" + d + "^$dnstype=A", "*." + d}
+	modes := []string{"default", "null_ip", "custom_ip", "nxdomain", "refused"}
+	prots := [][2]string{{"1", "none"}, {"0", "none"}, {"1", "future"}}
+	qtypes := []uint16{dns.TypeA, dns.TypeAAAA, dns.TypeHTTPS, dns.TypeMX, dns.TypeTXT, dns.TypePTR, dns.TypeCNAME}
+	i := 0
+	for _, k1 := range kinds {
+		for _, k2 := range kinds {
+			for place := 0; place < 3; place++ {
+				for _, m := range modes {
+					for _, p := range prots {
+						for _, qt := range qtypes {
+							i++
+							c := &c01Case{mode: m, bip4: netip.MustParseAddr("198.51.100.7"), bip6: netip.MustParseAddr("2001:db8::b10c"),
+								ttl: 10, prot: p[0] == "1", pause: p[1], gfilt: true, cip: netip.MustParseAddr("10.0.0.1"), qtype: qt}
+							c.qname = []string{d + ".", "x." + d + "."}[i%2]
+							if k1 != "" {
+								c.custom = append(c.custom, k1)
+							}
+							if k2 != "" {
+								switch place {
+								case 0:
+									c.custom = append(c.custom, k2)
+								case 1:
+									c.block = append(c.block, c01List{enabled: true, lines: []string{k2}})
+								default:
+									c.allow = append(c.allow, c01List{enabled: true, lines: []string{k2}})
+								}
+							}
+							c.urcode = dns.RcodeSuccess
+							c.uans = []dns.RR{&dns.TXT{Hdr: dns.RR_Header{Name: c.qname, Rrtype: dns.TypeTXT, Class: dns.ClassINET, Ttl: 60}, Txt: []string{"up"}}}
+							emit(append(c.fields("C01.q"), c.oracleFields()...)...)
+						}
+					}
+				}
+			}
+		}
+	}
 }
 
 func c01Gen(r *rand.Rand, emit vutil.Emit) {
@@ -1014,6 +1109,9 @@ func c01Gen(r *rand.Rand, emit vutil.Emit) {
 	for i := 0; i < n; i++ {
 		c := c01GenCase(r)
 		emit(append(c.fields("C01.q"), c.oracleFields()...)...)
+	}
+	if vutil.Thorough() {
+		c01Exhaustive(emit)
 	}
 }
 
